@@ -483,7 +483,6 @@ func (c *Ctx) evalBuiltin(st *State, call *ast.CallExpr, name string) []Val {
 			}
 			r := c.havoc(st, "app", rt)
 			st.assume("(= " + sLen(r) + " (+ " + sLen(s) + " " + sLen(t) + "))")
-			st.assume("(= " + sOff(r) + " 0)")
 			st.assume(fmt.Sprintf("(= %s (and %s %s))", sNil(r), sNil(s), sNil(t)))
 			c.nfr++
 			j := fmt.Sprintf("j!q%d", c.nfr)
@@ -623,8 +622,25 @@ func (c *Ctx) modularCall(st *State, call *ast.CallExpr, fn *types.Func, ct *Fun
 	}
 	short := shortKey(fn)
 	ord := fmt.Sprintf("#%d", c.callOrd[call])
+	if recv != nil && recv.S == "Iface" && c.prefix == "" && c.unit.Contract != nil && c.unit.Contract.Flags["nilcalls"] {
+		c.addObl(st, "nilcall", fmt.Sprintf("nilcall@%s%s", short, ord), "(not (= (itag "+recv.T+") 0))", "method call "+types.ExprString(call.Fun)+" on a nil interface at "+c.pos(call))
+		st.assume("(not (= (itag " + recv.T + ") 0))")
+	}
 	pre := st.clone()
 	env := &SpecEnv{c: c, st: st, old: nil, bound: bound, pkg: cpkg}
+	// ghost lets of the callee contract denote entry values: evaluate them in the pre-call state
+	for _, g := range ct.Ghosts {
+		v, err := env.trVal(g.Expr)
+		if err != nil {
+			c.abort("contract of %s: ghost %s: %v", fn.FullName(), g.Name, err)
+			return c.havocResults(st, call, "res")
+		}
+		if isSliceSort(v.S) {
+			st.assume("(>= " + sLen(v) + " 0)")
+		}
+		v = c.named(st, "cg_"+g.Name, v)
+		bound[g.Name] = v
+	}
 	for i, r := range ct.Requires {
 		t, err := env.trBool(r.Expr)
 		if err != nil {
